@@ -387,3 +387,60 @@ def r01b(ctx, rep, rule="R01b"):
             rep.ok(rule, key0, "%s consumes exactly its frame for arities %s" % (short_path(p), arities), [f.span])
     rep.floor(rule, "registered builtins with a recognised arity", n_builtins, 130)
     rep.note("%s: %d builtin/arity cases explored" % (rule, n_cases))
+
+
+def scheme_registry(facts):
+    """Scheme name -> path of the registered builtin (from the load_builtin(name, fn) calls)"""
+    out = {}
+    for p, f in facts.fns.items():
+        for bb, t in f.calls():
+            if (callee(t) or "").endswith("load_builtin") and len(t["args"]) >= 3:
+                c = op_const(t["args"][1])
+                o = f.origin(t["args"][2])
+                tgt = None
+                if o[0] == "rv" and o[1]["rv"]["k"] == "cast":
+                    cc = op_const(o[1]["rv"]["a"])
+                    tgt = (cc or {}).get("fn") or (cc or {}).get("text")
+                if c is None or "str" not in c or not tgt:
+                    continue
+                for q in facts.fns:
+                    if q == tgt or (q.endswith("::" + str(tgt).split("::")[-1]) and "::builtin::" in q):
+                        out[c["str"]] = q
+    return out
+
+
+def r_arity_table(ctx, rep, rule, table, what):
+    """registered arity interval of each named procedure == the interval R7RS gives it"""
+    facts = ctx["facts"]
+    rep.rule(rule, "arity table agreement: for %s, the interval of argument counts the builtin admits — the constants of its "
+             "pop_argc(min, max) call, directly or in the helper it delegates to — equals the interval R7RS (small, sections "
+             "6.x) gives the procedure. The reference intervals are a table in the checker, copied from the report. A floor "
+             "that is too high rejects a call R7RS defines ((string) is the empty string); a missing optional argument "
+             "rejects the ranged form." % what)
+    reg = scheme_registry(facts)
+    rep.floor(rule, "builtins registered under a Scheme name", len(reg), 100)
+    n = 0
+    for name, want in sorted(table.items()):
+        path = reg.get(name)
+        key = "%s|%s" % (rule, name)
+        if path is None:
+            rep.ok(rule, key, "`%s` is not a Rust builtin (prelude or absent)" % name, nontrivial=False)
+            continue
+        f = facts.fns[path]
+        got = arity_of(facts, f)
+        n += 1
+        if got is None:
+            rep.anchor_lost(rule, "no constant pop_argc bounds found for `%s` (%s)" % (name, short_path(path)))
+            continue
+        show = lambda iv: "%d..%s" % (iv[0], "" if iv[1] is None else iv[1])
+        if tuple(got) == tuple(want):
+            rep.ok(rule, key, "`%s` admits %s arguments, as R7RS specifies" % (name, show(got)), [f.span])
+        else:
+            lo_bad = got[0] > want[0]
+            hi_bad = got[1] is not None and (want[1] is None or got[1] < want[1])
+            rep.fail(rule, key, "`%s` admits %s arguments, R7RS specifies %s: %s" % (
+                name, show(got), show(want),
+                "a call with fewer operands that R7RS defines is rejected" if lo_bad else
+                "the optional operands R7RS defines are rejected with an arity error" if hi_bad else
+                "calls R7RS does not define are accepted"), [f.span])
+    rep.floor(rule, "named procedures that are Rust builtins", n, 5)
